@@ -2,7 +2,7 @@
 From Coq Require Import ZArith NArith List Bool String Ascii.
 From Valida Require Import Py Lang Defs Cond Dsl Check DocSem Path PathSpec Cast Str SpecDefs RuleDefs RuleTerms
   Spec SpecIO SpecSpell Eq Inst RunSpec Rule.
-From Valida.Proofs Require Import C11Proof C12Proof C13Proof C13Glue.
+From Valida.Proofs Require Import C11Proof C11EscProof C12Proof C14Proof C13Proof C13Glue C11PathProof C13PathProof.
 Import ListNotations.
 Local Open Scope string_scope.
 Local Open Scope list_scope.
@@ -64,3 +64,30 @@ Theorem C13_modified_path_is_refused : forall pt q casts g r,
   rule_to_json T X (r_path r) (r_cond r) (r_cast r) g = Err ValueError.
 Proof. exact C13_modified_rule_ValueError. Qed.
 Print Assumptions C13_modified_path_is_refused.
+
+(* ---- rules whose condition looks at other nodes through DATA-PATH arguments ----
+   [c13p_term pt sts t casts] is the rule the API builds from a path, a typed condition tree [t] in which [VObj n] stands for the
+   n-th data path of [sts] (fragment [tree_in_c11p], Properties/C11.v) and casts.  The rebuilt rule holds the path terms read back
+   ([rule_back]): it is == to the original, validates identically on every document, and serialises to exactly the same data. *)
+Theorem C13_rule_with_path_arguments : forall st sts t casts g r,
+  path_in_c12 st = true -> st_mods st = [] -> st_src st = None ->
+  tree_in_c11p sts t = true -> casts_in_c13 casts = true -> flag_ok casts g ->
+  mk_rule T (c13p_term (spathterm_term st) sts t casts) = Ok r ->
+  exists j rt' ex r',
+    rule_to_json T X (r_path r) (r_cond r) (r_cast r) g = Ok j /\ json_pure j = true /\
+    rule_from_spec T X j = Ok (rt', ex) /\ mk_rule T rt' = Ok r' /\
+    rx_cast_given ex = g /\ rx_doc ex = VNone /\
+    r' = rule_back sts t r /\
+    (path_self_eq (spathterm_term st) = true -> casts_wf casts -> rule_eqb T r' r g g = true) /\
+    (forall doc copy, rule_test T r' doc copy = rule_test T r doc copy) /\
+    rule_to_json T X (r_path r') (r_cond r') (r_cast r') g = Ok j.
+Proof. exact C13P_rule_roundtrip. Qed.
+
+Theorem C13_schema_with_path_arguments : forall xs s,
+  Forall rule_in_c13p xs -> mapM mk_rule_obj_p xs = Ok s ->
+  exists j s', schema_to_json s = Ok j /\ json_pure j = true /\ schema_from_json j = Ok s' /\ s' = schema_back xs s /\
+    (forall doc, validate T (map fst s') doc = validate T (map fst s) doc) /\
+    schema_to_json s' = Ok j /\
+    (Forall obj_self_eq s -> schema_eqb T s' s = true).
+Proof. exact C13P_schema. Qed.
+Print Assumptions C13_rule_with_path_arguments. Print Assumptions C13_schema_with_path_arguments.
